@@ -737,6 +737,13 @@ func lengthPrograms() []*dsl.Program {
 		r := &dsl.Program{Name: "L/narrow-neighbour-" + t, Packets: append([]*dsl.Packet{dsl.Root("Msg", dsl.Sc("u8", "Kind"), dsl.Lo(t, "Len", "Body"), dsl.Sc("u8", "Guard"), dsl.Mt("Kind", "Body", dsl.K("Beta", "1"), dsl.K("Empty", "2")))}, pay()...)}
 		r.Opts = dsl.TargetOpts("glnarrow" + t)
 		out = append(out, r)
+		// the target is an inline object
+		{
+			lf := dsl.Lo(t, "Len", "Hdr")
+			a := &dsl.Program{Name: "L/inline-target-" + t, Packets: []*dsl.Packet{dsl.Root("Msg", dsl.Sc("u8", "Kind"), lf, dsl.In("Hdr", dsl.Sc("u16", "Code"), dsl.Ds("Text"), dsl.Rep(dsl.Sc("u8", "Flags"))), dsl.Sc("u8", "After"))}}
+			a.Opts = dsl.TargetOpts("glinline" + t)
+			out = append(out, a)
+		}
 		if t == "u16" {
 			for _, late := range []bool{false, true} {
 				lf := dsl.Lo(t, "Len", "Body")
@@ -761,6 +768,17 @@ func lengthPrograms() []*dsl.Program {
 			a := &dsl.Program{Name: "L/alias-" + t + "-" + sp, Packets: append([]*dsl.Packet{dsl.Root("Msg", dsl.Sc("u16", "Kind"), lf, dsl.Mt("Kind", "Body", dsl.K("Alpha", "1"), dsl.K("Empty", "3")), dsl.Sc("u8", "After"))}, pay()...)}
 			a.Opts = dsl.TargetOpts("glalias" + t + sp)
 			out = append(out, a)
+		}
+	}
+	// the same shapes written on ONE source line (a generator that decides anything from line numbers - which
+	// field comes first, which alternatives belong together - gets ties)
+	for _, p := range append([]*dsl.Program(nil), out...) {
+		if strings.Contains(p.Name, "first-u16") || strings.Contains(p.Name, "adjacent-trailer-u16") || strings.Contains(p.Name, "inline-target-u16") || strings.Contains(p.Name, "alias-u32-prefixed") {
+			q := p.Clone()
+			q.OneLine = true
+			q.Name = p.Name + " (one line)"
+			q.Opts = dsl.TargetOpts("gl1" + strings.NewReplacer("L/", "", "-", "").Replace(p.Name))
+			out = append(out, q)
 		}
 	}
 	return out
